@@ -47,7 +47,7 @@ def generate_chain(rng, i):
     judged as an account: ledger replay, rewards and aggregations across the rolls."""
     from tesim.props import c11
     for _ in range(6):
-        sc = c11.generate(rng, i)
+        sc = c11.generate_single(rng, i)
         if not sc.get("construct_only"):
             break
     else:
@@ -489,3 +489,15 @@ def simplify(scenario):
 
 
 generate = gen_epi.with_backtest_driver(generate, 0.2)
+_generate_bt = generate
+
+
+def generate(rng, i):
+    sc = _generate_bt(rng, i)
+    if i % 3 == 1 and sc.get("kind") == "epi" and sc.get("driver") != "backtest":
+        # a monitoring caller reads the track record's public accessors while the episode runs (after the second step
+        # and half-way): what it was shown then must not be what it is shown later.  No draw of the stream is consumed
+        steps = [j for j, op in enumerate(sc["script"]) if op["op"] == "step"]
+        for pos in sorted({steps[min(2, len(steps) - 1)], steps[len(steps) // 2]} if steps else [], reverse=True):
+            sc["script"].insert(pos, {"op": "peek", "env": 0})
+    return sc
